@@ -102,9 +102,9 @@ theorem fix_idempotent (step : Nat → Doc → PassRes Doc) (Trig : Nat → Doc 
 trigger: rule B (runs first, by id) is clean on the input; rule A's fix creates B's trigger; both
 are at level 1, so no further pass is made.  (The shape of MD029 → MD030 on `10. x`.)
 Executable check, evaluated at build time. -/
-def gapA : XRule := ⟨"VPB002", 1, true, false, false, true, false,
+def gapA : XRule := ⟨"VPB002", 1, true, false, false, true, false, fun _ => false,
   fun l => l == "a", fun l => if l == "a" then some "b" else none, fun _ => none⟩
-def gapB : XRule := ⟨"VPA001", 1, true, false, false, true, false,
+def gapB : XRule := ⟨"VPA001", 1, true, false, false, true, false, fun _ => false,
   fun l => l == "b", fun l => if l == "b" then some "c" else none, fun _ => none⟩
 #guard ((fixFile [gapB, gapA] (fun _ => []) (fun _ _ => none) "a").map fun o => (o.content, o.levels)) == some ("b", [1])
 #guard gapB.lineTrig "b"   -- the result still triggers B: not a fixed point
